@@ -9,6 +9,7 @@ CONSTANTS
   MaxOps = 3
   MaxRejected = 0
   ShapeAttempts = FALSE
+  ShapeTail = "none"
   Defect_TieBreakByPartialCmp = FALSE
   Defect_NoopModifyUnchecked = FALSE
   Defect_RecreateAccepted = FALSE
